@@ -668,6 +668,17 @@ Definition legal (i : input) : bool :=
                            && json_safe (b_d256 b) && json_safe (b_d384 b) && json_safe (b_d512 b)
      end.
 
+Definition size_of (t : target) : Z :=
+  match t with TOCI d => d_size d | TBlob b _ _ => b_size b end.
+
+(* the input contract of the theorems: legal, the size is an int64 (it is one in
+   Go), and — because of the KNOWN finding, footprint 1 — with the JWS envelope
+   the size survives float64 *)
+Definition wf (i : input) : bool :=
+  legal i
+  && (- max_int64 - 1 <=? size_of (i_target i))%Z && (size_of (i_target i) <=? max_int64)%Z
+  && ((i_format i =? mt_cose) || (jws_number (size_of (i_target i)) =? size_of (i_target i))%Z).
+
 (* the descriptor that must have been signed: media type, digest, size,
    annotations + user metadata, nothing else *)
 Definition expected_signed (i : input) (an : string) : descr :=
